@@ -10,6 +10,8 @@ sources, primaries) are C12.  `clip_transparent` is FALSE for degree > 1 (findin
 statement is the `nu = 1` part.  Property theorems only; helpers in Lemmas/NeoxLayerL.lean.
 -/
 import KfacVerif.Lemmas.NeoxLayerL
+import KfacVerif.Lemmas.NeoxScriptL
+import KfacVerif.Props.C03
 
 namespace KV.C11
 open KV KV.NeoxL
@@ -96,5 +98,89 @@ theorem replicated_mean (dp mp : Nat) (hdp : 0 < dp) (hmp : 0 < mp) (x : Nat →
     (((List.range dp).flatMap fun d => (List.range mp).map fun _ => x d).foldl (· + ·) 0) / ((dp * mp : Nat) : Rat)
       = (((List.range dp).map x).foldl (· + ·) 0) / (dp : Rat) :=
   replicated_mean_l dp mp hdp hmp x
+
+/-! ## the collectives of the GPT-NeoX path as one global script (M-NeoxScript)
+
+Model: KV.NeoxS (Model/NeoxScript.lean) = the communication skeleton of kfac/gpt_neox/layer.py, mpu.py
+and of the hook/step() code of base_preconditioner.py under GPTNeoXAssignment, with the bucketing
+communicator of M-Comm.  Tied to the code on every run: every rank's issued collectives (kind, members,
+element count, root) are compared exactly, in order, with the projection of the script.
+`NCfgOK`, `toG` are defined in Lemmas/NeoxScriptL.lean (namespace KV.C11S). -/
+section NeoxScript
+open KV.Neox KV.NeoxS KV.C12 KV.C11S
+
+/-- **the GPT-NeoX script is well formed** for every topology, every layer list, every bucket
+    capacity and every history of training passes and steps: members are ranks of the world, no
+    collective is entered by a single rank, every broadcast root is a member.  -/
+theorem neox_script_wf (c : NeoxS.Cfg) (hc : NCfgOK c) (ops : List Op) :
+    KV.Sched2.wf c.t.world ((run c ops).acts.map toG) = true := by
+  exact run_wf c hc ops
+
+/-- hence the per-rank programs (projections) satisfy the scheduler invariant: with the generic
+    theorems of C03 (`no_deadlock`, `terminal_all_done`, `match_per_group`) no rank ever stalls on
+    the GPT-NeoX path under any interleaving, and members of a group issue matching sequences -/
+theorem neox_consistent (c : NeoxS.Cfg) (hc : NCfgOK c) (ops : List Op) :
+    KV.Sched2.SInv (KV.Sched2.eventsOf ((run c ops).acts.map toG)) c.t.world
+      (KV.Sched2.initOf ((run c ops).acts.map toG) c.t.world) :=
+  KV.C03.script_consistent _ _ (neox_script_wf c hc ops)
+
+/-- **group-specific communication**: every collective runs on a model-parallel group, on a
+    data-parallel group or on the peers of one pipeline stage, and its kind fits the group:
+    gathers/scatters only inside model-parallel groups, all-reduces (factors) only over
+    data-parallel groups or stage peers, broadcasts inside a model-parallel group (replicated bias)
+    or a data-parallel group (preconditioned gradient) -/
+theorem neox_groups (c : NeoxS.Cfg) (hc : NCfgOK c) (ops : List Op) (a : NAct) (ha : a ∈ (run c ops).acts) :
+    (∃ p d, p < c.t.pp ∧ d < c.t.dp ∧ a.members = modelGroup c p d ∧
+        (a.kind = .allgather ∨ a.kind = .reducescatter ∨ a.kind = .broadcast)) ∨
+    (∃ p m, p < c.t.pp ∧ m < c.t.mp ∧ a.members = dataGroup c p m ∧
+        (a.kind = .allreduce ∨ a.kind = .broadcast)) ∨
+    (∃ p, p < c.t.pp ∧ a.members = c.t.stagePeers p ∧ a.kind = .allreduce) := by
+  exact run_groups c hc ops a ha
+
+/-- **the sharded factor is reduced by exactly the ranks that gathered it**: the data-parallel
+    group used by `fwdLayer`/`bwdLayer` for the sharded factor of a layer consists of the ranks of
+    the stage that are their own factor worker (primary rank) for that layer, and it contains the
+    inverse worker -/
+theorem reduce_group_is_primaries (c : NeoxS.Cfg) (hc : NCfgOK c) {p : Nat} (hp : p < c.t.pp)
+    (l : Layer) (hl : l ∈ c.stages.getD p []) (loc : Nat) (hloc : loc < c.t.world) (hs : c.t.pipeOf loc = p) :
+    (loc ∈ dataGroup c p (c.t.modelOf (invOf c p l)) ↔ (asg c p).factorWorker loc l.name = some loc) ∧
+    invOf c p l ∈ dataGroup c p (c.t.modelOf (invOf c p l)) := by
+  exact reduce_group c hc.topo hp l hl loc hloc hs
+
+/-- **roots agree with the assignment (C12)**: the gradient broadcast on data-parallel group
+    `(p, m)` is rooted at what `src_grad_worker` answers on every member of that group, and the
+    replicated-bias broadcast inside the inverse worker's model-parallel group is rooted at the
+    inverse worker, which is the factor worker of every member of that group -/
+theorem roots_agree (c : NeoxS.Cfg) (hc : NCfgOK c) {p : Nat} (hp : p < c.t.pp)
+    (l : Layer) (hl : l ∈ c.stages.getD p []) (loc : Nat) (hloc : loc < c.t.world) (hs : c.t.pipeOf loc = p) :
+    (asg c p).srcGradWorker loc l.name = some (c.t.rankOf p (c.t.dataOf (invOf c p l)) (c.t.modelOf loc)) ∧
+    (loc ∈ modelGroup c p (c.t.dataOf (invOf c p l)) → (asg c p).factorWorker loc l.name = some (invOf c p l)) := by
+  exact roots c hc.topo hp l hl loc hloc hs
+
+/-- **nothing is left in a bucket after a step**: every factor submitted to the bucketed
+    communicator has been sent when `step()` returns -/
+theorem no_pending_after_step (c : NeoxS.Cfg) (s : St) :
+    Comm.pending (stepOp c s).comm = [] := by
+  exact stepOp_pending c s
+
+/-- **iterations that are not factor-update iterations are silent in the hooks** -/
+theorem silent_pass (c : NeoxS.Cfg) (s : St) (h : s.steps % c.fus ≠ 0) : trainPass c s = s := by
+  exact trainPass_silent c s h
+
+/-- non-vacuity: a 2×2×2 topology with one column/row block per stage meets `NCfgOK` and its script
+    is not empty -/
+def demoCfg : NeoxS.Cfg :=
+  { t := ⟨2, 2, 2⟩,
+    stages := [[⟨"0", .col, 2, 4, true⟩, ⟨"2", .row, 4, 2, true⟩], [⟨"3", .col, 2, 4, true⟩, ⟨"5", .row, 4, 2, false⟩]],
+    tokens := 4, fus := 1, ius := 1, bucketed := true, cap := 200, esize := 8, sym := true, cube := true }
+
+example : NCfgOK demoCfg ∧ (run demoCfg [.train, .step]).acts ≠ [] := by
+  refine ⟨⟨⟨by decide, by decide, by decide⟩, by decide, ?_⟩, by decide +kernel⟩
+  intro p hp
+  have : p = 0 ∨ p = 1 := by change p < 2 at hp; omega
+  rcases this with rfl | rfl <;> simp [demoCfg]
+
+
+end NeoxScript
 
 end KV.C11
